@@ -118,27 +118,45 @@ Expected(m, h) ==
 AllowedClasses == {"ok", "revert", "invalid", "undefined", "underflow", "overflow", "mem", "badjump",
                    "fuel", "memcap", "selfdestruct_failed"}
 
+\* the run, as far as the specification can follow it, against the recorded end of the run
+EndAgrees(e, h) ==
+  LET x == Expected(mach, h) IN
+  IF x # e.class
+  THEN /\ Viol("C17", "Outcome", e, x, e.class)
+       /\ Viol("C18", "OutcomeClass", e, x, e.class)
+       /\ Chk(e.class # "fuel", "C18", "NoHang", e, x, e.steps)
+       \* the specification stopped the frame for a state change in a static context; the code did not
+       /\ Chk(x # "readonly", "C18", "StaticNoEffect", e, x, e.class)
+  ELSE /\ Chk(e.class \notin {"ok", "revert"} \/ mach.output = e.out,
+              "C17", "ReturnData", e, Len(mach.output), Len(e.out))
+       /\ Chk(h.kind = "static" \/
+              ToStorage(e.storage) = (IF e.class = "ok" THEN mach.storage ELSE ToStorage(h.storage0)),
+              "C17", "Storage", e, Len(e.storage), Cardinality(DOMAIN mach.storage))
+       /\ Chk(e.stok, "C17", "StorageApi", e, "-", "-")
+
 TEnd(e, h) ==
   /\ Chk(~e.panicked /\ e.class # "panic", "C18", "NoPanic", e, e.class, e.msg)
-  /\ Chk(\/ e.class = "undeployable"
+  /\ Chk(\/ e.class \in {"undeployable", "uncreated"}
          \/ e.class \in AllowedClasses
-         \/ (h.kind = "init" /\ e.class = "illegal_argument"), "C18", "OutcomeClass", e, e.class, e.code)
+         \/ (h.kind = "init" /\ e.class = "illegal_argument")
+         \/ (h.kind = "static" /\ e.class \in {"readonly", "unreached", "outside"}),
+         "C18", "OutcomeClass", e, e.class, e.code)
+  /\ IF h.kind = "static"
+     THEN \* nothing in the state tree changed and no event was emitted during the whole message
+          /\ Chk(e.same_state /\ e.same_bal /\ e.same_actors /\ e.events = 0,
+                 "C18", "StaticNoEffect", e, e.events, e.class)
+          \* what the caller saw is consistent with how the frame ended
+          /\ Chk(e.flag = -1 \/ e.class \in {"unreached", "outside"} \/ ((e.flag = 1) <=> (e.class = "ok")),
+                 "C18", "OutcomeClass", e, e.flag, e.class)
+     ELSE TRUE
   /\ IF e.class = "undeployable"
      THEN Chk(~DeployOK(prog.code), "C17", "Deploy", e, Len(prog.code), "-")
+     ELSE IF e.class \in {"uncreated", "unreached", "outside"} THEN TRUE
      ELSE IF mode # "cmp"
      THEN \* the specification did not follow this run to the end: a budget exhaustion is accepted only
           \* if the interpreter really used its whole budget
           Chk(e.class = "fuel" => e.steps >= h.fuel, "C18", "NoHang", e, e.steps, h.fuel)
-     ELSE LET x == Expected(mach, h) IN
-          IF x # e.class
-          THEN /\ Viol("C17", "Outcome", e, x, e.class)
-               /\ Viol("C18", "OutcomeClass", e, x, e.class)
-               /\ Chk(e.class # "fuel", "C18", "NoHang", e, x, e.steps)
-          ELSE /\ Chk(e.class \notin {"ok", "revert"} \/ mach.output = e.out,
-                      "C17", "ReturnData", e, Len(mach.output), Len(e.out))
-               /\ Chk(IF e.class = "ok" THEN ToStorage(e.storage) = mach.storage ELSE Len(e.storage) = 0,
-                      "C17", "Storage", e, Len(e.storage), Cardinality(DOMAIN mach.storage))
-               /\ Chk(e.stok, "C17", "StorageApi", e, "-", "-")
+     ELSE EndAgrees(e, h)
 
 -----------------------------------------------------------------------------
 TInit ==
@@ -147,7 +165,8 @@ TInit ==
     /\ hdr = i /\ l = i + 1
     /\ prog = MkProg(h.code, h.calldata, h.static)
     /\ mach = Settle(MkProg(h.code, h.calldata, h.static),
-                     [InitMach EXCEPT !.kmap = IF KeccakKnown = 1 THEN KMap0 ELSE <<>>])
+                     [InitMach EXCEPT !.kmap = IF KeccakKnown = 1 THEN KMap0 ELSE <<>>,
+                                      !.storage = ToStorage(h.storage0)])
     /\ mode = IF h.cmp THEN "cmp" ELSE "off"
     /\ nsteps = 0 /\ calls = FALSE
 
@@ -163,6 +182,7 @@ TStep ==
              ELSE LET diff == StepDiff(mach, e, h.fuel) IN
                   IF diff # ""
                   THEN /\ Viol("C17", diff, e, mach.pc, mach.status)
+                       /\ Chk(mach.status # "readonly", "C18", "StaticNoEffect", e, mach.pc, mach.status)
                        /\ mode' = "lost" /\ UNCHANGED mach
                   ELSE LET m1 == ObsExec(prog, mach, HintAt(l + 1)) IN
                        /\ mach' = m1
